@@ -10,6 +10,7 @@ import (
 	"errors"
 	"fmt"
 	"net"
+	"reflect"
 	"time"
 	"unsafe"
 
@@ -34,6 +35,7 @@ type VerifRunLoopSnap struct {
 	CfgHandshakeIdle     int64
 	CfgHandshakeTimeout  int64
 	PeerMaxIdleTimeout   int64 // -1: no peer parameters yet
+	PeerAdvertisedIdle   int64 // params.AdvertisedMaxIdleTimeout where the field exists, else 0
 	CreationTime         int64
 	LastPacketReceived   int64
 	FirstAckElicitingAft int64
@@ -88,6 +90,10 @@ func VerifRunLoopSnapshot(c *Conn) VerifRunLoopSnap {
 	}
 	if c.peerParams != nil {
 		s.PeerMaxIdleTimeout = int64(c.peerParams.MaxIdleTimeout)
+		// (read by name so that the harness also compiles against a tree without that field)
+		if f := reflect.ValueOf(c.peerParams).Elem().FieldByName("AdvertisedMaxIdleTimeout"); f.IsValid() {
+			s.PeerAdvertisedIdle = f.Int()
+		}
 	}
 	if c.timer != nil {
 		if w, ok := verifTimerWhen(c.timer); ok {
